@@ -209,6 +209,7 @@ static bool decode_utf8(const vector<UINT8> &in_data, deque<int> &out_data)
          // invalid UTF-8 sequence
          return(false);
       }
+      const int len = cnt;    // number of continuation bytes of this sequence
 
       while (  cnt-- > 0
             && idx < in_data.size())
@@ -226,6 +227,15 @@ static bool decode_utf8(const vector<UINT8> &in_data, deque<int> &out_data)
       if (cnt >= 0)
       {
          // short UTF-8 sequence
+         return(false);
+      }
+      // smallest code point that needs 'len' continuation bytes
+      static const int min_code[] = { 0, 0x80, 0x800, 0x10000, 0x200000, 0x4000000 };
+
+      if (ch < min_code[len])
+      {
+         // overlong (non-shortest) form: it would be written back in fewer
+         // bytes, i.e. the file would be silently altered
          return(false);
       }
       out_data.push_back(ch);
